@@ -33,7 +33,7 @@ ASSUMPTIONS = [
 SANITY = ["tridonic_reports", "tridonic_gaps", "tridonic_subscriber_deliveries", "tridonic_failed_config_reports",
           "tridonic_quirk_reports", "tridonic_late_joiner_reports", "tridonic_two_gateway_reports", "luba_reports", "sci_reports", "luba_extra_subscriber_reports", "sci_extra_subscriber_reports",
           "luba_subscriber_op_sequences", "sci_subscriber_op_sequences"]
-BOUNDS = {"quick": "Tridonic: histories len<=2 at d<=2, len 3 at d<=1; serial: histories len<=3 (single schedule + chunk placement d<=1); subscribers <=2; late joiner: 11 kinds d<=2 + 44 pairs d<=1; own-frame-again quirk: 2 x 20 histories d<=2; serial subscriber operation sequences depth<=6",
+BOUNDS = {"quick": "Tridonic: histories len<=2 at d<=2, len 3 at d<=1; serial: histories len<=3 (single schedule + chunk placement d<=1); subscribers <=2; late joiner: 11 kinds d<=2 + 44 pairs d<=1; own-frame-again quirk: 2 x 20 histories d<=2; serial subscriber operation sequences depth<=6; instance map re-bound at every point of 3 event histories (d<=2)",
           "thorough": "Tridonic: len<=3 at d<=2, len 4 at d<=1; serial len<=4; subscribers <=3"}
 
 # ----------------------------------------------------------------------------- traffic alphabet
